@@ -50,7 +50,8 @@ def jobs_for(tier, rnd):
     for (iname, inner, prefix) in INNERS:
         for kinds in combos:
             for d in depths:
-                if tier == 'quick' and (gid * 7 + d) % 3 and d not in (12, 13, 14, 15, 16, 18, 20, 22):
+                if (tier == 'quick' and (gid * 7 + d) % 3 and d not in (12, 13, 14, 15, 16, 18, 20, 22)) or \
+                        (tier != 'quick' and (gid * 7 + d) % 2 and not 10 <= d <= 26):
                     gid += 1
                     continue
                 for named in (False, True):
@@ -83,7 +84,8 @@ def jobs_for(tier, rnd):
     for (iname, inner, prefix) in BINNERS:
         for kinds in combos:
             for d in depths:
-                if tier == 'quick' and (gid * 7 + d) % 3 and d not in (12, 14, 16, 17, 18, 20, 22):
+                if (tier == 'quick' and (gid * 7 + d) % 3 and d not in (12, 14, 16, 17, 18, 20, 22)) or \
+                        (tier != 'quick' and (gid * 7 + d) % 2 and not 10 <= d <= 26):
                     gid += 1
                     continue
                 for named in (False, True):
